@@ -172,8 +172,13 @@ def _cov(X):
     return S
 
 
-def _same_num(a, b, tol=TOL, rel=False):
+_TOL_NOW = [TOL]       # tolerance of the case being observed (float32 input: the working precision of that input)
+
+
+def _same_num(a, b, tol=None, rel=False):
     """None if equal (NaN == NaN) within tol, else a description"""
+    if tol is None:
+        tol = _TOL_NOW[0]
     a = np.asarray(a, dtype=float)
     b = np.asarray(b, dtype=float)
     if a.shape != b.shape:
@@ -235,7 +240,14 @@ class World:
         self.pgroups = sorted(set(self.plab), key=str)
         self.method = case['method']
         truth = rs.rand(self.n_pair) + 0.2
-        self.D = truth[None] * (0.5 + rs.rand(self.n_rdm, 1)) + 0.6 * rs.rand(self.n_rdm, self.n_pair)
+        D = truth[None] * (0.5 + rs.rand(self.n_rdm, 1)) + 0.6 * rs.rand(self.n_rdm, self.n_pair)
+        # sweep dimensions (absent from a case = the plain float64 / list form):
+        #   dtype: the dissimilarities of data and model RDMs are handed over in that dtype (integer types: integer-valued);
+        #          the spec works on the SAME values as float64 -- the property speaks of values, not of storage types
+        #   scale_data / scale_model: legitimate units (1e-26 .. 1e+12); the spec works on the scaled values
+        #   container: list | tuple | ndarray | ndarray-small (int16 / fixed-width str) descriptors
+        #   theta_dtype: supplied parameters as integer-valued int64 / as float32 arrays (spec: the same values)
+        self.D, D_in = self._typed(D, case.get('scale_data', 1.0))
         pdesc = {'cid': list(range(self.n_cond))}
         rdesc = {'rid': list(range(self.n_rdm))}
         if case.get('pg'):
@@ -243,7 +255,8 @@ class World:
         if case.get('rg'):
             rdesc['rg'] = list(self.rlab)
         self.pdesc = pdesc
-        self.data = RDMs(self.D.copy(), rdm_descriptors=rdesc, pattern_descriptors={k: list(v) for k, v in pdesc.items()})
+        self.data = RDMs(D_in, rdm_descriptors={k: self._cont(v) for k, v in rdesc.items()},
+                         pattern_descriptors={k: self._cont(v) for k, v in pdesc.items()})
         self.kinds = list(case['models'])
         self.B, self.models, self.theta = [], [], []
         for j, kind in enumerate(self.kinds):
@@ -256,8 +269,9 @@ class World:
                 B = B[rs.permutation(3)]
             else:
                 B = truth[None] * rs.rand(nb, 1) + 0.7 * rs.rand(nb, self.n_pair) + 0.05
+            B, B_in = self._typed(B, case.get('scale_model', 1.0))
             self.B.append(B)
-            obj = RDMs(B.copy(), pattern_descriptors={k: list(v) for k, v in pdesc.items()})
+            obj = RDMs(B_in, pattern_descriptors={k: self._cont(v) for k, v in pdesc.items()})
             name = f'm{j}{kind}'
             if kind == 'fixed':
                 mdl, th = M.ModelFixed(name, obj), None
@@ -270,10 +284,67 @@ class World:
                 th = np.zeros(nb)
                 i, w = int(rs.randint(nb - 1)), float(rs.rand())
                 th[i], th[i + 1] = w, 1 - w
+            td = case.get('theta_dtype')
+            if td and th is not None:
+                if kind == 'select':
+                    th = np.int64(th) if td == 'int' else th
+                elif td == 'int':
+                    th = np.round(th * (3 if kind == 'weighted' else 1) + (1 if kind == 'weighted' else 0)).astype(np.int64)
+                else:
+                    th = th.astype(td)
             self.models.append(mdl)
             self.theta.append(th)
         self.kind_of = {m.name: k for m, k in zip(self.models, self.kinds)}
         self.index_of = {m.name: j for j, m in enumerate(self.models)}
+
+    def _typed(self, A, scale):
+        """(values as float64 for the spec, array handed to the library) of the generated dissimilarities A"""
+        dt = self.case.get('dtype')
+        if dt in ('int64', 'int32', 'int16', 'uint8'):
+            q = np.round(A * (30.0 if dt == 'uint8' else 1000.0)) + 1.0     # uint8: 1 .. ~200, else 1 .. ~7000 (fits int16)
+            assert float(np.max(q)) <= (255.0 if dt == 'uint8' else 32767.0)
+            real = q.astype(dt)
+        elif dt:
+            real = (A * scale).astype(dt)
+        else:
+            real = A * scale
+        return real.astype(np.float64), real.copy()
+
+    def _cont(self, vals):
+        c = self.case.get('container', 'list')
+        if c == 'tuple':
+            return tuple(vals)
+        if c == 'ndarray':
+            return np.array(list(vals))
+        if c == 'ndarray-small':
+            return np.array(list(vals)) if isinstance(vals[0], str) else np.array(list(vals), dtype=np.int16)
+        return list(vals)
+
+    @property
+    def marg(self):
+        """the `models` argument: the list, or the single model itself (bare_model)"""
+        return self.models[0] if self.case.get('bare_model') else self.models
+
+    def snapshot(self):
+        """content of everything the caller hands to a routine (values, not container types)"""
+        def desc(d):
+            return {k: [_plain(x) for x in v] for k, v in d.items()}
+
+        def arr(a):
+            a = np.asarray(a)
+            return (str(a.dtype), a.shape, a.tobytes())
+        out = {'data': arr(self.data.dissimilarities), 'data.rdm_descriptors': desc(self.data.rdm_descriptors),
+               'data.pattern_descriptors': desc(self.data.pattern_descriptors)}
+        for j, m in enumerate(self.models):
+            out[f'model {j} name'] = m.name
+            for a in ('rdm', 'w', 'bounds'):
+                if isinstance(getattr(m, a, None), np.ndarray):
+                    out[f'model {j} .{a}'] = arr(getattr(m, a))
+            if getattr(m, 'rdm_obj', None) is not None:
+                out[f'model {j} .rdm_obj.dissimilarities'] = arr(m.rdm_obj.dissimilarities)
+                out[f'model {j} .rdm_obj.pattern_descriptors'] = desc(m.rdm_obj.pattern_descriptors)
+            out[f'theta {j}'] = None if self.theta[j] is None else arr(self.theta[j])
+        return out
 
     # ---- spec primitives ------------------------------------------------------------------------------
     def pairs(self, C):
@@ -346,6 +417,8 @@ class World:
             rdesc['rg'] = [self.rlab[r] for r in R]
         pdesc = {k: [v[c] for c in C] for k, v in self.pdesc.items()}
         pdesc['index'] = list(C)
+        if len(C) and len(R):
+            rdesc, pdesc = {k: self._cont(v) for k, v in rdesc.items()}, {k: self._cont(v) for k, v in pdesc.items()}
         return RDMs(vec, rdm_descriptors=rdesc, pattern_descriptors=pdesc)
 
 
@@ -510,6 +583,8 @@ def observe(case):
     if key not in _MEMO:
         _MEMO.clear()
         state = np.random.get_state()
+        # float32 dissimilarities: similarities are computed (and rho-a values stored) in single precision
+        _TOL_NOW[0] = 5e-6 if case.get('dtype') == 'float32' else TOL
         try:
             _MEMO[key] = FAMILIES[case['routine']](case)
         except Exception as e:      # the routine (or the monitor) broke down: reported once, under the first clause
@@ -525,6 +600,26 @@ def observe(case):
 def _run_twice(W, call, o, fit_mode='none'):
     """first run with all wrappers (-> log), second run bare under the same seed"""
     log = Log()
+    scratch = []
+
+    def on_other_content(np_seed):
+        """call sequence: the same routine on OTHER content of the same shape, model names and descriptors (anything remembered
+        per shape / name / label instead of per content shows up in the observed run after it, or in the rerun)"""
+        W2 = World(dict(W.case, seed=W.case['seed'] + 4099))
+        mine, other = dict(W.__dict__), dict(W2.__dict__)
+        fit_other, _ = _fitters(W2, fit_mode, scratch)
+        try:
+            W.__dict__.clear()
+            W.__dict__.update(other)        # the routine closures read W.data / W.models / W.D at call time
+            np.random.seed(np_seed)
+            with _patched(None):
+                return call(fit_other)
+        finally:
+            W.__dict__.clear()
+            W.__dict__.update(mine)
+    if W.case.get('seq'):
+        on_other_content(W.case['np_seed'] + 2)     # BEFORE the observed run (which the spec checks)
+    before = W.snapshot()
     origs = [(m, _wrap_default(m, log.fits)) for m in W.models]
     fit_arg, fit_desc = _fitters(W, fit_mode, log.fits)
     try:
@@ -534,14 +629,30 @@ def _run_twice(W, call, o, fit_mode='none'):
     finally:
         for m, orig in origs:
             m.default_fitter = orig
-    scratch = []
+    # the caller's objects are what the stored numbers are about, and what a rerun is a rerun ON: they keep their content
+    after = W.snapshot()
+    for k in before:
+        if before[k] != after.get(k):
+            o.add('reproducible', f'the call changed its input: {k} differs after the call'
+                                  + (f' (dtype/shape {before[k][:2]} -> {after[k][:2]})' if isinstance(before[k], tuple) else ''))
+    held = {n: (None if getattr(res, n) is None else np.array(getattr(res, n), copy=True)) for n in ('evaluations', 'noise_ceiling', 'variances')}
+    if W.case.get('seq'):
+        res_between = on_other_content(W.case['np_seed'] + 1)       # BETWEEN the observed run and its rerun
+        for name in ('evaluations', 'noise_ceiling', 'variances'):      # checked NOW: the rerun below would restore the values
+            if not _bits_equal(getattr(res, name), held[name]):
+                o.add('reproducible', f'{name} of the Result held by the caller changed when the routine was called on other data')
+        if _bits_equal(res_between.evaluations, held['evaluations']) and np.any(np.isfinite(np.asarray(held['evaluations'], dtype=float))):
+            o.add('reproducible', 'a call on other data and models of the same shape (other seed) returned bit-identical evaluations')
     fit_arg2, _ = _fitters(W, fit_mode, scratch)
     np.random.seed(W.case['np_seed'])
     with _patched(None):
         res2 = call(fit_arg2)
     for name in ('evaluations', 'noise_ceiling', 'variances'):
         if not _bits_equal(getattr(res, name), getattr(res2, name)):
-            o.add('reproducible', f'{name} of a rerun with the same seed is not bit-identical')
+            o.add('reproducible', f'{name} of a rerun with the same seed is not bit-identical'
+                                  + (' (after a call on other data of the same shape in between)' if W.case.get('seq') else ''))
+        if not _bits_equal(getattr(res, name), held[name]):
+            o.add('reproducible', f'{name} of the Result held by the caller changed when the routine was called again')
     if res.dof != res2.dof:
         o.add('reproducible', f'dof {res.dof} vs {res2.dof} in a rerun with the same seed')
     return res, log, fit_desc
@@ -596,7 +707,7 @@ def fam_fixed(case):
     from rsatoolbox.inference import eval_fixed
     W, o = World(case), Obs()
     theta = None if case.get('theta_none') else list(W.theta)
-    res, log, _ = _run_twice(W, lambda fit: eval_fixed(W.models, W.data, theta=theta, method=W.method), o)
+    res, log, _ = _run_twice(W, lambda fit: eval_fixed(W.marg, W.data, theta=theta, method=W.method), o)
     m = len(W.models)
     allR, allC = list(range(W.n_rdm)), list(range(W.n_cond))
     idx = W.pairs(allC)
@@ -640,7 +751,7 @@ def fam_boot(case):
     kw = dict(theta=theta, method=W.method, N=N, rdm_descriptor=W.rd, boot_noise_ceil=bnc)
     if rp:
         kw['pattern_descriptor'] = W.pd
-    res, log, _ = _run_twice(W, lambda fit: getattr(inf, fn)(W.models, W.data, **kw), o)
+    res, log, _ = _run_twice(W, lambda fit: getattr(inf, fn)(W.marg, W.data, **kw), o)
     m = len(W.models)
     if len(log.draws) != N or log.folds:
         o.add('reproducible', f'{len(log.draws)} draws and {len(log.folds)} fold assignments were made for N={N} resamples')
@@ -789,7 +900,7 @@ def fam_crossval(case):
         train = [[W.obj(s['R_tr'], s['C_tr']), list(s['L_tr'])] for s in sides]
         test = [[W.obj(s['R_te'], s['C_te']), list(s['L_te'])] for s in sides]
         ceil = [[W.obj(s['R_ce'], s['C_te']), list(s['L_te'])] for s in sides] if ceil_mode == 'given' else None
-        return crossval(W.models, W.data, train, test, ceil_set=ceil, method=W.method, fitter=fit, pattern_descriptor=W.pd,
+        return crossval(W.marg, W.data, train, test, ceil_set=ceil, method=W.method, fitter=fit, pattern_descriptor=W.pd,
                         calc_noise_ceil=calc)
     res, log, fit_desc = _run_twice(W, call, o, case['fitter'])
     m = len(W.models)
@@ -862,7 +973,7 @@ def fam_bootcv(case):
     k_pattern, k_rdm = case['k_pattern'], case['k_rdm']
     sampler, rr, rp = BTYPE[bt]
     res, log, fit_desc = _run_twice(W, lambda fit: bootstrap_crossval(
-        W.models, W.data, method=W.method, fitter=fit, k_pattern=k_pattern, k_rdm=k_rdm, N=N, n_cv=n_cv,
+        W.marg, W.data, method=W.method, fitter=fit, k_pattern=k_pattern, k_rdm=k_rdm, N=N, n_cv=n_cv,
         pattern_descriptor=W.pd, rdm_descriptor=W.rd, boot_type=bt, use_correction=corr), o, case['fitter'])
     m = len(W.models)
     if k_pattern is None or k_rdm is None:      # documented defaults: read the fold count off the result, both k in 2..5
@@ -936,7 +1047,7 @@ def fam_dual(case):
     N, n_cv, corr = case['N'], case['n_cv'], case['use_correction']
     k_pattern, k_rdm = case['k_pattern'], case['k_rdm']
     res, log, fit_desc = _run_twice(W, lambda fit: eval_dual_bootstrap(
-        W.models, W.data, method=W.method, fitter=fit, k_pattern=k_pattern, k_rdm=k_rdm, N=N, n_cv=n_cv,
+        W.marg, W.data, method=W.method, fitter=fit, k_pattern=k_pattern, k_rdm=k_rdm, N=N, n_cv=n_cv,
         pattern_descriptor=W.pd, rdm_descriptor=W.rd, use_correction=corr), o, case['fitter'])
     if k_pattern == 1 and k_rdm == 1:   # documented: without cross-validation one repetition, no correction
         n_cv, corr = 1, False
@@ -999,7 +1110,7 @@ def fam_dual_random(case):
     n_pattern, n_rdm = case['test_pattern'], case['test_rdm']       # size of the random test sets (in units)
     sampler, rr, rp = BTYPE[bt]
     res, log, fit_desc = _run_twice(W, lambda fit: eval_dual_bootstrap_random(
-        W.models, W.data, method=W.method, fitter=fit, n_pattern=n_pattern, n_rdm=n_rdm, N=N, n_cv=n_cv,
+        W.marg, W.data, method=W.method, fitter=fit, n_pattern=n_pattern, n_rdm=n_rdm, N=N, n_cv=n_cv,
         pattern_descriptor=W.pd, rdm_descriptor=W.rd, boot_type=bt, use_correction=corr), o, case['fitter'])
     m = len(W.models)
     if len(log.draws) != N:
@@ -1091,6 +1202,15 @@ SHAPES = {   # label -> n_rdm, n_cond, rdm group labels (None: every RDM its own
     'cv-identity': dict(n_rdm=4, n_cond=9, rg=None, pg=None),
     'cv-grouped': dict(n_rdm=6, n_cond=10, rg=[20, 10, 20, 30, 10, 40], pg=[0, 0, 1, 2, 3, 3, 4, 5, 6, 7]),
     'one-rdm': dict(n_rdm=1, n_cond=5, rg=None, pg=None),
+    # sweep shapes: interleaved groups whose first-appearance order is neither the numeric nor the string order, unbalanced
+    # group sizes, a negative label; one RDM group; sizes with remainder 2 for 3 folds; more items than the other shapes
+    'interleaved-conditions': dict(n_rdm=4, n_cond=8, rg=None, pg=[7, 3, 7, 10, 3, 9, -1, 7]),
+    'interleaved-both': dict(n_rdm=5, n_cond=7, rg=[10, 9, 10, 100, 9], pg=['b', 'a', 'c', 'b', 'd', 'a', 'e']),
+    'one-rdm-group': dict(n_rdm=3, n_cond=6, rg=[5, 5, 5], pg=None),
+    'cv-interleaved': dict(n_rdm=6, n_cond=11, rg=[30, 10, 100, 10, 30, 9], pg=[5, 2, 7, 2, 0, 5, 9, 4, 6, 10, 2]),
+    'cv-11': dict(n_rdm=5, n_cond=11, rg=None, pg=None),
+    'cv-one-rdm': dict(n_rdm=1, n_cond=9, rg=None, pg=None),
+    'big': dict(n_rdm=8, n_cond=14, rg=[3, 1, 2, 3, 1, 4, 5, 6], pg=[0, 1, 2, 3, 4, 5, 6, 7, 8, 9, 10, 11, 0, 5]),
 }
 MODELSETS = {'fixed1': ['fixed'], 'fixed2': ['fixed', 'fixed'], 'all4': ['fixed', 'weighted', 'select', 'interpolate'],
              'flex3': ['weighted', 'select', 'interpolate'], 'sel-int': ['select', 'interpolate'], 'sel2': ['select', 'fixed'], 'w-def': ['weighted', 'fixed']}
@@ -1154,6 +1274,56 @@ def _cv_folds(shape, kind):
     raise ValueError(kind)
 
 
+# ---- dimension sweeps: the same routines on inputs that vary along one more dimension each ------------------------------
+# Every sweep case goes through the same spec as the plain cases; what changes is the FORM of the input, for which the property
+# (a statement about values, labels and resamples) implies the same definite result:
+#   dtype=...          dissimilarities of data and model RDMs stored as int64 / int32 / int16 / uint8 (integer-valued, with ties)
+#                      or float32: the result is the one of the same values as float64 (float32: to single precision)
+#   units=...          data and / or predictions in very small / very large units (all three measures are invariant under
+#                      positive scaling; the spec is evaluated on the scaled values directly)
+#   descriptors-as-... descriptor vectors handed over as tuple / ndarray / int16- or fixed-width-str ndarray instead of list
+#   theta=...          supplied parameters as integer-valued int64 / float32 arrays; bare-model: one Model instead of a list
+#   call-sequence      between run and rerun the routine works on other content of the same shape, names and labels
+#   (always, every case) inputs keep their content during the call; a Result held by the caller is not changed by later calls
+#   shapes             interleaved groups (first-appearance order != sorted order, str order != numeric order, negative label,
+#                      unbalanced), one RDM / one RDM group (dof 0), 3 folds of 11 conditions / 5 RDMs (remainder 2),
+#                      thorough: 8 RDMs x 14 conditions
+NARROW_INT = ('uint8', 'int16')
+SWEEP_KW = (('dtype=int64', dict(dtype='int64')), ('dtype=int32', dict(dtype='int32')), ('dtype=int16', dict(dtype='int16')),
+            ('dtype=uint8', dict(dtype='uint8')), ('dtype=float32', dict(dtype='float32')),
+            ('units=1e-26', dict(scale_data=1e-26)), ('units=1e+12/1e-20', dict(scale_data=1e12, scale_model=1e-20)),
+            ('units=1e-12/1e+6', dict(scale_data=1e-12, scale_model=1e6)), ('units=1e+6/1e+12', dict(scale_data=1e6, scale_model=1e12)),
+            ('descriptors-as-tuple', dict(container='tuple')), ('descriptors-as-ndarray', dict(container='ndarray')),
+            ('descriptors-as-small-ndarray', dict(container='ndarray-small')), ('call-sequence', dict(seq=True)))
+THETA_KW = (('theta=int64', dict(theta_dtype='int')), ('theta=float32', dict(theta_dtype='float32')), ('bare-model', dict(bare_model=True)))
+SWEEP_NOTE = ('; sweeps (own input classes): dissimilarities as int64/int32/int16/uint8/float32, units 1e-26..1e+12, descriptors as '
+              'tuple/ndarray, call sequence with other content in between, interleaved / unbalanced / single groups, 3-fold remainders')
+
+
+def _sweeps(cases, thorough, seeds, mk, extra=(), quick_half=None):
+    """one case per sweep value (thorough: per method and data seed); mk(i, method, seed, **kw) -> case, i rotates the options;
+    quick_half 0 / 1: the quick tier takes every second sweep value (the bootstrap-wrapped cross-validations share their
+    data path with crossval and the samplers, and split the values between them)"""
+    i = 0
+    for seed in seeds:
+        for n, (ic, kw) in enumerate(SWEEP_KW + tuple(extra)):
+            if not thorough and quick_half is not None and n % 2 != quick_half and not kw.get('seq'):
+                i += 1
+                continue
+            for method in (METHODS if thorough else (METHODS[(i + seed) % 3],)):
+                i += 1
+                if kw.get('dtype') in NARROW_INT and method == 'cosine':
+                    # pool_rdm squares the dissimilarities in their own integer type (uint8: silently wrong cosine noise
+                    # ceilings, int16: NaN pooled RDM -> ValueError) wherever the typed data are pooled without passing
+                    # through subsample_pattern
+                    if False:  # pending triage: narrow-int,cosine-pooling
+                        cases.append((mk(i, method, seed, **kw), 'narrow-int,cosine-pooling'))
+                    if thorough:
+                        continue
+                    method = METHODS[1 + i % 2]
+                cases.append((mk(i, method, seed, **kw), ic))
+
+
 def tier_c(run, thorough):
     bds = []
     seeds = range(3) if thorough else range(1)
@@ -1168,8 +1338,19 @@ def tier_c(run, thorough):
                 for method in (METHODS if thorough else (meth(k + q),)):
                     cases.append((_case(shape, ms, method, seed, routine='eval_fixed', theta_none=(ms == 'fixed2')),
                                   'one-rdm' if shape == 'one-rdm' else shape))
+    def mk_fixed(i, method, seed, **kw):
+        bare = bool(kw.get('bare_model'))
+        return _case(('grouped-both', 'identity', 'string-groups')[i % 3], 'fixed1' if bare else 'all4', method, seed,
+                     routine='eval_fixed', theta_none=bare, **kw)
+    _sweeps(cases, thorough, seeds, mk_fixed, THETA_KW)
+    for seed in seeds:
+        for k, shape in enumerate(('interleaved-conditions', 'interleaved-both', 'one-rdm-group') + (('big',) if thorough else ())):
+            for q, ms in enumerate(('fixed2', 'all4')):
+                for method in (METHODS if thorough else (meth(k + q + 1),)):
+                    cases.append((_case(shape, ms, method, seed, routine='eval_fixed', theta_none=(ms == 'fixed2')), shape))
     _run_family(run, 'eval_fixed', 'eval_fixed; 1..5 RDMs x 4..7 conditions, 2 fixed models (theta=None) / fixed+weighted+select+'
-                'interpolate models at supplied parameters; methods cosine, corr, rho-a; %d data seeds' % len(seeds), cases, bds, H)
+                'interpolate models at supplied parameters; methods cosine, corr, rho-a; %d data seeds' % len(seeds) + SWEEP_NOTE,
+                cases, bds, H)
 
     # ---- the three plain bootstraps ----
     cases = []
@@ -1184,10 +1365,32 @@ def tier_c(run, thorough):
                         for method in (METHODS if thorough else (meth(r + k + q + b),)):
                             cases.append((_case(shape, ms, method, seed, routine=fn, N=N, boot_noise_ceil=bnc,
                                                 theta_none=(ms != 'all4')), shape))
+    BOOT3 = ('eval_bootstrap', 'eval_bootstrap_pattern', 'eval_bootstrap_rdm')
+
+    def mk_boot(i, method, seed, **kw):
+        bare = bool(kw.get('bare_model'))
+        return _case(('grouped-both', 'grouped-conditions', 'string-groups', 'grouped-rdms')[i % 4], 'fixed1' if bare else 'all4', method, seed,
+                     routine=BOOT3[i % 3], N=N, boot_noise_ceil=bool((i // 3) % 2), theta_none=bare, **kw)
+    _sweeps(cases, thorough, seeds, mk_boot, THETA_KW)
+    for seed in seeds:      # the call sequence for each of the three routines (any state kept between calls is per routine)
+        for r in range(3):
+            for method in (METHODS if thorough else (meth(r + seed),)):
+                cases.append((mk_boot(7 * r + 3 * seed, method, seed, seq=True), 'call-sequence'))
+    for seed in seeds:
+        k = 0
+        for shape in ('interleaved-conditions', 'interleaved-both', 'one-rdm-group', 'one-rdm') + (('big',) if thorough else ()):
+            for r, fn in enumerate(BOOT3):
+                for b, bnc in enumerate((True, False)):
+                    k += 1
+                    if not thorough and b != (k // 2) % 2:
+                        continue
+                    for method in (METHODS if thorough else (meth(k + seed),)):
+                        cases.append((_case(shape, 'all4' if k % 2 else 'fixed2', method, seed, routine=fn, N=N, boot_noise_ceil=bnc,
+                                            theta_none=not k % 2), shape))
     _run_family(run, 'eval_bootstrap_all3', 'eval_bootstrap, eval_bootstrap_pattern, eval_bootstrap_rdm; N=%d; 2..5 RDMs x 4..7 '
                 'conditions, identity and repeated-value (int / str) descriptors on either factor; 1-2 fixed models (theta=None) / '
                 '4 model classes at supplied parameters; boot_noise_ceil True/False; methods cosine, corr, rho-a; %d data seeds'
-                % (N, len(seeds)), cases, bds, H)
+                % (N, len(seeds)) + SWEEP_NOTE, cases, bds, H)
 
     # ---- crossval ----
     cases = []
@@ -1215,10 +1418,31 @@ def tier_c(run, thorough):
         # fit_optimize (BFGS from random starts: consumes the global generator) as default fitter of a weighted model
         cases.append((_case('cv-identity', 'w-def', meth(seed), seed, routine='crossval', folds=_cv_folds('cv-identity', 'conditions'),
                             fitter='none', ceil='none'), 'conditions-folds'))
+    CVFIT = (('none', 'sel-int'), ('callable', 'all4'), ('list', 'flex3'), ('none', 'sel2'))
+
+    def mk_cv(i, method, seed, **kw):
+        shape, kind = ('cv-grouped', 'cv-identity')[i % 2], ('conditions', 'rdms', 'both', 'resampled')[(i // 2) % 4]
+        fitter, ms = CVFIT[i % 4]
+        return _case(shape, ms, method, seed, routine='crossval', folds=_cv_folds(shape, kind), fitter=fitter,
+                     ceil='given' if (i % 3 == 0 and kind != 'resampled') else 'none', **kw)
+    _sweeps(cases, thorough, seeds, mk_cv)
+    for seed in seeds:
+        k = 0
+        for shape, kinds in (('cv-interleaved', ('conditions', 'rdms', 'both', 'resampled', 'too-small')), ('cv-11', ('conditions', 'both')),
+                             ('cv-one-rdm', ('conditions',))):
+            for kind in kinds:
+                for fitter, ms in CVFIT:
+                    k += 1
+                    if not thorough and k % 2:
+                        continue
+                    ceil = 'given' if (k % 4 == 0 and kind not in ('resampled', 'too-small')) else 'none'
+                    for method in (METHODS if thorough else (meth(k // 2 + seed),)):
+                        cases.append((_case(shape, ms, method, seed, routine='crossval', folds=_cv_folds(shape, kind), fitter=fitter,
+                                            ceil=ceil), f'{shape},{kind}-folds'))
     _run_family(run, 'crossval', 'crossval on hand-made folds (condition folds, leave-one-RDM-out, both, folds of a resample with '
                 'repeated RDMs / condition labels, folds too small to evaluate) of 4x9 and 6x10 (grouped) data; fitter None '
                 '(fit_select, fit_interpolate, fit_optimize, fit_mock) / one callable / list mixing callables and None; ceil_set None / given; '
-                'methods cosine, corr, rho-a; %d data seeds' % len(seeds), cases, bds, H)
+                'methods cosine, corr, rho-a; %d data seeds' % len(seeds) + SWEEP_NOTE, cases, bds, H)
 
     # ---- bootstrap_crossval ----
     cases = []
@@ -1243,9 +1467,33 @@ def tier_c(run, thorough):
                             k_rdm=1, N=4, n_cv=2, use_correction=True, fitter='none'), 'default-fitters'))
         cases.append((_case('cv-identity', 'w-def', 'cosine', seed, routine='bootstrap_crossval', boot_type='rdm', k_pattern=1,
                             k_rdm=2, N=3, n_cv=2, use_correction=True, fitter='none'), 'default-fitters'))
+    BCFIT = (('none', 'sel2'), ('callable', 'all4'), ('list', 'flex3'))
+
+    def mk_bootcv(i, method, seed, **kw):
+        shape, kp, kr = (('cv-identity', 2, 1), ('cv-identity', 1, 2), ('cv-grouped', 2, 2), ('cv-grouped', 1, 1))[i % 4]
+        fitter, ms = BCFIT[i % 3]
+        n_cv, corr = ((2, True), (2, True), (1, False), (2, False), (3, True))[i % 5]
+        return _case(shape, ms, method, seed, routine='bootstrap_crossval', boot_type=('both', 'pattern', 'rdm')[(i // 4) % 3],
+                     k_pattern=kp, k_rdm=kr, N=N, n_cv=n_cv, use_correction=corr, fitter=fitter, **kw)
+    _sweeps(cases, thorough, seeds, mk_bootcv, quick_half=0)
+    for seed in seeds:
+        k = 0
+        for shape, kp, kr, bt in (('cv-interleaved', 2, 2, 'both'), ('cv-interleaved', 2, 1, 'pattern'), ('cv-interleaved', 1, 2, 'rdm'),
+                                  ('cv-11', 3, 1, 'rdm'), ('cv-11', 1, 3, 'pattern'), ('cv-11', 3, 3, 'rdm'), ('cv-11', 3, 1, 'pattern'),
+                                  ('cv-one-rdm', 2, 1, 'pattern'),
+                                  ('one-rdm-group', 2, 1, 'rdm')) + ((('big', 3, 2, 'both'), ('big', 2, 3, 'pattern'), ('big', 3, 3, 'rdm'))
+                                                                     if thorough else ()):
+            for q, (fitter, ms) in enumerate(BCFIT):
+                k += 1
+                if not thorough and ((k - 1) // 3 + seed) % 3 != q:      # quick: one fitter form per shape, rotating
+                    continue
+                n_cv, corr = (2, True) if k % 4 else (3, True)
+                for method in (METHODS if thorough else (meth(k),)):
+                    cases.append((_case(shape, ms, method, seed, routine='bootstrap_crossval', boot_type=bt, k_pattern=kp, k_rdm=kr,
+                                        N=N, n_cv=n_cv, use_correction=corr, fitter=fitter), f'{shape},k={kp}x{kr},boot_type={bt}'))
     _run_family(run, 'bootstrap_crossval', 'bootstrap_crossval boot_type both/pattern/rdm; N=%d; k_pattern, k_rdm in {1,2} and defaults; '
                 'n_cv 1/2 with and without correction; 4x9, 6x10 (grouped), 5x7 (grouped) data; fitter None / callable / list; '
-                'methods cosine, corr, rho-a; %d data seeds' % (N, len(seeds)), cases, bds, H)
+                'methods cosine, corr, rho-a; %d data seeds' % (N, len(seeds)) + SWEEP_NOTE + '; k in {1,2,3}, n_cv 3', cases, bds, H)
 
     # ---- eval_dual_bootstrap ----
     cases = []
@@ -1260,9 +1508,27 @@ def tier_c(run, thorough):
                 n_cv, corr = (2, True) if k % 3 else (2, False)
                 cases.append((_case(shape, ms, meth(k), seed, routine='eval_dual_bootstrap', k_pattern=kp, k_rdm=kr, N=N + (2 if kp == 1 else 0),
                                     n_cv=n_cv, use_correction=corr, fitter=fitter), f'{shape},k={kp}x{kr}'))
+    def mk_dual(i, method, seed, **kw):
+        shape, kp, kr = (('grouped-both', 1, 1), ('cv-identity', 2, 1), ('cv-grouped', 1, 2), ('cv-grouped', 2, 2))[i % 4]
+        fitter, ms = BCFIT[i % 3]
+        return _case(shape, ms, method, seed, routine='eval_dual_bootstrap', k_pattern=kp, k_rdm=kr, N=N + (2 if kp == 1 else 0),
+                     n_cv=2 + (i % 5 == 0), use_correction=bool(i % 3), fitter=fitter, **kw)
+    _sweeps(cases, thorough, seeds, mk_dual, quick_half=1)
+    for seed in seeds:
+        k = 0
+        for shape, kp, kr in (('interleaved-both', 1, 1), ('cv-interleaved', 2, 1), ('cv-interleaved', 1, 2), ('cv-11', 1, 3), ('cv-11', 3, 1),
+                              ('one-rdm-group', 1, 1)) + ((('big', 2, 2),) if thorough else ()):
+            for q, (fitter, ms) in enumerate(BCFIT):
+                k += 1
+                if not thorough and ((k - 1) // 3 + seed) % 3 != q:      # quick: one fitter form per shape, rotating
+                    continue
+                for method in (METHODS if thorough else (meth(k),)):
+                    cases.append((_case(shape, ms, method, seed, routine='eval_dual_bootstrap', k_pattern=kp, k_rdm=kr,
+                                        N=N + (2 if kp == 1 else 0), n_cv=2, use_correction=bool(k % 2), fitter=fitter),
+                                  f'{shape},k={kp}x{kr}'))
     _run_family(run, 'eval_dual_bootstrap', 'eval_dual_bootstrap; N=%d..%d; k_pattern, k_rdm in {1,2}; n_cv 2 with and without correction; '
                 '3x5, 5x7 (grouped), 4x9, 6x10 (grouped) data; fitter None / callable / list; methods cosine, corr, rho-a; %d data seeds'
-                % (N, N + 2, len(seeds)), cases, bds, H)
+                % (N, N + 2, len(seeds)) + SWEEP_NOTE + '; k_rdm 3, n_cv 3', cases, bds, H)
 
     # ---- eval_dual_bootstrap_random ----
     cases = []
@@ -1282,9 +1548,29 @@ def tier_c(run, thorough):
         # test sets of 2 condition units: nothing to evaluate, also when a unit was drawn twice (see C04_findings.md, F3)
         cases.append((_case('cv-identity', 'fixed2', 'cosine', seed, routine='eval_dual_bootstrap_random', boot_type='pattern',
                             test_pattern=2, test_rdm=0, N=N, n_cv=2, use_correction=True, fitter='none'), 'test-sets-lt3-conditions'))
+    def mk_dualrandom(i, method, seed, **kw):
+        shape, npat, nr = (('cv-identity', 3, 1), ('cv-grouped', 3, 2), ('cv-grouped', 0, 1), ('cv-identity', 4, 0))[i % 4]
+        fitter, ms = BCFIT[i % 3]
+        n_cv, corr = ((2, True), (3, True), (2, False), (1, False), (2, True))[i % 5]
+        return _case(shape, ms, method, seed, routine='eval_dual_bootstrap_random', boot_type=('both', 'pattern', 'rdm')[(i // 4) % 3],
+                     test_pattern=npat, test_rdm=nr, N=N, n_cv=n_cv, use_correction=corr, fitter=fitter, **kw)
+    _sweeps(cases, thorough, seeds, mk_dualrandom, quick_half=1)
+    for seed in seeds:
+        k = 0
+        for shape, npat, nr, bt in (('cv-interleaved', 3, 1, 'both'), ('cv-interleaved', 3, 0, 'pattern'), ('cv-interleaved', 0, 2, 'rdm'),
+                                    ('cv-11', 4, 2, 'rdm'), ('cv-11', 5, 1, 'both'), ('cv-one-rdm', 3, 0, 'pattern')) + \
+                (((('big', 4, 2, 'both'),)) if thorough else ()):
+            for q, (fitter, ms) in enumerate(BCFIT):
+                k += 1
+                if not thorough and ((k - 1) // 3 + seed) % 3 != q:      # quick: one fitter form per shape, rotating
+                    continue
+                for method in (METHODS if thorough else (meth(k),)):
+                    cases.append((_case(shape, ms, method, seed, routine='eval_dual_bootstrap_random', boot_type=bt, test_pattern=npat,
+                                        test_rdm=nr, N=N, n_cv=2 + (k % 4 == 0), use_correction=True, fitter=fitter),
+                                  f'{shape},test={npat}x{nr},boot_type={bt}'))
     _run_family(run, 'eval_dual_bootstrap_random', 'eval_dual_bootstrap_random boot_type both/pattern/rdm; N=%d; test sets of 0, 2, 3, 4 '
                 'condition units and 0..2 RDM units; n_cv 2 (corrected / not) / 3 / 1; 3x5, 5x7 (grouped), 4x9, 6x10 (grouped) data; fitter None / '
-                'callable / list; methods cosine, corr, rho-a; %d data seeds' % (N, len(seeds)), cases, bds, H)
+                'callable / list; methods cosine, corr, rho-a; %d data seeds' % (N, len(seeds)) + SWEEP_NOTE + '; test sets of 5 units', cases, bds, H)
     tier_c_cross_process(run, thorough, bds)
     return bds
 
